@@ -14,7 +14,7 @@ VERIF = mut.VERIF
 bad = 0
 for d in sorted(glob.glob(os.path.join(VERIF, "seeded", "*"))):
     patch = os.path.join(d, "patch.diff")
-    demos = [f for f in os.listdir(d) if f.startswith("demo")]
+    demos = [f for f in ("demo.py", "demo.sh") if os.path.exists(os.path.join(d, f))]
     name = os.path.basename(d)
     chk = subprocess.run(["git", "-C", "/repo", "apply", "--check", patch], capture_output=True, text=True)
     if chk.returncode != 0:
